@@ -88,3 +88,24 @@ PROPS = {
  "C15": dict(tie=[], race=True, assumptions=COMMON_ASSUME + ["Go memory model, race-freedom of x/crypto/sha3, hex, fmt on distinct objects are not modelled (partial)"]),
  "C16": dict(oracle_ops=["js.xverify", "js.xaddr", "js.xvalid", "js.dverify", "js.daddr", "js.dvalid"], tie=tie("JS"), assumptions=COMMON_ASSUME + ["GopherJS object glue is not modelled; only the pure string wrappers are"]),
 }
+
+PARTIAL = {
+ "C01": "theorems per height: 4..12 in the default build, 14 and 16 in the thorough tier (18 opt-in); heights 20..30 have the height-generic lemmas with the per-height label check as a hypothesis (C01_partial). The hand-written model is tied to the Go code by skeleton digests and the correspondence run.",
+ "C02": "nothing is left unproved about the model (all heights ≤ 30, all histories, all uint32 arguments); the tie of the hand-written key-object model is skeleton digests + correspondence.",
+ "C03": "the theorem is about the model; hypotheses: XOF output lengths, Expanded(seed) (evaluated on every seed of a run), and that the signing loop returned (termination depends on the XOF and is not provable).",
+ "C04": "that a flipped bit is rejected is collision resistance of the hash function, not a theorem about this code: exhaustive single-bit flips are run on the real code.",
+ "C05": "cryptographic soundness (unforgeability) is not claimed; the strictness of each individual check is exercised on the real code by a key-holding malicious signer and byte-level edits.",
+ "C06": "same per-height structure as C01 (C06_partial for heights 20..30).",
+ "C07": "key generation = specification is a theorem; 'signature bytes = a separately written specification-level signer' is not a single theorem (the signer is characterised by sign_w_spec, sign_z_spec and C03.verify_sign; the library is byte-compared with the executable model and an independent Go reference).",
+ "C08": "nothing is left unproved about the model (all heights ≤ 30, all histories).",
+ "C09": "nothing is left unproved about the model; randomness of New()/NewXMSSFromHeight is a parameter.",
+ "C10": "nothing is left unproved about the model; Go strings.Split and map semantics are modelled (splitOnSpace, later duplicate wins).",
+ "C11": "nothing is left unproved about the model; hash outputs are arbitrary parameters.",
+ "C12": "the scalar functions, the zetas table and montgomeryReduce are the regenerated ones; the transform loops are a hand-written halving recursion tied by skeleton digests and the dl.ntt / dl.invntt correspondence.",
+ "C13": "lane identities rest on bv_decide axioms (listed); everything else kernel-only.",
+ "C14": "'no Go runtime.Error' and 'inputs unmodified' are runtime facts checked by the harness; the model shows every access it makes is in range.",
+ "C15": "partial by nature: the Go memory model and race-freedom inside x/crypto/sha3, encoding/hex, fmt are not modelled; the effect table is syntactic.",
+ "C16": "GopherJS object glue is not modelled; only the six pure string wrappers are.",
+}
+for _k, _v in PARTIAL.items():
+    PROPS[_k]["partial"] = _v
